@@ -728,12 +728,14 @@ def modelEstimateSM (c : Config α) (m : StateModel α) (v : Nat) (state : List 
   match c.gc[v]? with
   | none => .error .network
   | some gcm =>
-    match estimateSM c.trav m gcm state with
-    | none => .error .traversal
-    | some dst =>
-      match c.cost.costEstimate state dst with
-      | none => .error .cost
-      | some est => .ok (est * (match c.wf with | some w => w | none => one))
+    if gcm < zero then .error .traversal
+    else
+      match estimateSM c.trav m gcm state with
+      | none => .error .traversal
+      | some dst =>
+        match c.cost.costEstimate state dst with
+        | none => .error .cost
+        | some est => .ok (est * (match c.wf with | some w => w | none => one))
 
 variable {m : StateModel α} {fs : List (Feat α)}
 
